@@ -196,6 +196,24 @@ func runC09(res *Result, d *Driver, tier string, seed uint64) {
 		}
 		r, _ = env.runProbe(RunSpec{Script: script}, false)
 		check("container", o, r)
+		if i%4 == 0 {
+			// what children do must not matter: a child that exits 3 first, an orphaned grandchild (double fork,
+			// same process group) that exits 7 / is killed while the main process is still running
+			orphan := "fork;fork;sleep 20;exit 7;endfork;exit 0;endfork;wait;sleep 80;" + script
+			orphanSig := "fork;fork;sleep 20;raise 11;endfork;exit 0;endfork;wait;sleep 80;" + script
+			r, _ = env.runProbe(RunSpec{Script: withChild}, false)
+			check("container+child", o, r)
+			r, _ = env.runProbe(RunSpec{Script: orphan}, i%8 == 0)
+			check("container+orphan", o, r)
+			r, _ = env.runProbe(RunSpec{Script: orphanSig}, false)
+			check("container+orphan-signalled", o, r)
+			r, _ = runPtraceProbe(RunSpec{Script: orphan})
+			check("ptrace+orphan", o, r)
+			if o.exited {
+				r, _ = runUnshareProbe(RunSpec{Script: orphan}, "", nil)
+				check("unshare+orphan", o, r)
+			}
+		}
 		r, _ = env.runProbe(RunSpec{Script: script, SyncFunc: func(int) error { return nil }}, true)
 		check("container-syncafter", o, r)
 	}
